@@ -9,6 +9,7 @@ from functools import partial
 from hashlib import sha256
 from itertools import count
 from os.path import dirname
+from types import ModuleType
 from typing import TYPE_CHECKING
 from typing import Any
 from zipfile import Path
@@ -108,6 +109,20 @@ def _identity(value: Any) -> str:
     return "{}:{}".format(_PROCESS_TOKEN, entry[0])
 
 
+def _is_named(value: Any, module: str, name: str) -> bool:
+    """Does the dotted name lead back to this very object?"""
+
+    found: Any = sys.modules.get(module)
+    if found is None:
+        return False
+    for part in name.split('.'):
+        try:
+            found = getattr(found, part)
+        except AttributeError:
+            return False
+    return found is value
+
+
 def _stable_repr(value: Any) -> str:
     """Process-independent representation of a configuration value."""
 
@@ -124,11 +139,20 @@ def _stable_repr(value: Any) -> str:
         ))
     module = getattr(value, '__module__', None)
     name = getattr(value, '__qualname__', getattr(value, '__name__', None))
+    if module is None:
+        # (a method of a built-in type, looked up on the type)
+        module = getattr(
+            getattr(value, '__objclass__', None), '__module__', None)
+    bound_to = getattr(value, '__self__', None)
+    if bound_to is not None and not isinstance(bound_to, ModuleType) \
+            and isinstance(name, str):
+        # A method of some object: what it does depends on that object.
+        return "{}.{}".format(_stable_repr(bound_to), name)
     if isinstance(module, str) and isinstance(name, str):
-        if '<locals>' in name or '<lambda>' in name:
-            # Made by a function, or anonymous: the name does not
-            # identify it (two classes returned by one factory have the
-            # same), only the object itself does.
+        if not _is_named(value, module, name):
+            # Made by a function (or by ``type()``), or anonymous: the
+            # name does not identify it (two classes returned by one
+            # factory have the same), only the object itself does.
             return "{}.{}@{}".format(module, name, _identity(value))
         return "{}.{}".format(module, name)
     if isinstance(value, bytes):
